@@ -2039,6 +2039,20 @@ func (c *Core) sealInitCommon(ctx context.Context, req *logical.Request) (retErr
 		}
 	}
 
+	if te != nil && te.NumUses == tokenRevocationPending {
+		// This was the token's final use, so it needs to be revoked whether
+		// or not the operation is allowed. We do this immediately here
+		// because we won't have a token store after sealing.
+		leaseID, err := c.expiration.CreateOrFetchRevocationLeaseByToken(c.activeContext.Load(), te)
+		if err == nil {
+			err = c.expiration.Revoke(c.activeContext.Load(), leaseID)
+		}
+		if err != nil {
+			c.logger.Error("token needed revocation before seal but failed to revoke", "error", err)
+			retErr = multierror.Append(retErr, ErrInternalError)
+		}
+	}
+
 	// Verify that this operation is allowed
 	authResults := c.performPolicyChecks(ctx, acl, te, req, entity, &policy.CheckOpts{
 		RootPrivsRequired: true,
@@ -2049,19 +2063,6 @@ func (c *Core) sealInitCommon(ctx context.Context, req *logical.Request) (retErr
 			retErr = multierror.Append(retErr, logical.ErrPermissionDenied)
 		}
 		return retErr
-	}
-
-	if te != nil && te.NumUses == tokenRevocationPending {
-		// Token needs to be revoked. We do this immediately here because
-		// we won't have a token store after sealing.
-		leaseID, err := c.expiration.CreateOrFetchRevocationLeaseByToken(c.activeContext.Load(), te)
-		if err == nil {
-			err = c.expiration.Revoke(c.activeContext.Load(), leaseID)
-		}
-		if err != nil {
-			c.logger.Error("token needed revocation before seal but failed to revoke", "error", err)
-			retErr = multierror.Append(retErr, ErrInternalError)
-		}
 	}
 
 	// Unlock; sealing will grab the lock when needed
